@@ -309,3 +309,56 @@ def extra_checks(rng, tier, notes):
                                                f"grid returns an array named {r.name!r}"))
     notes.append(f"{done} vector-component operations on face-connected grids: the result keeps the input's name")
     return out
+
+
+_extra_checks_vectors = extra_checks
+
+
+def extra_checks(rng, tier, notes):
+    out = _extra_checks_vectors(rng, tier, notes)
+    out.extend(selection_labels(rng, tier, notes))
+    return out
+
+
+def selection_labels(rng, tier, notes):
+    """A dimension that belongs to no axis keeps the labels the INPUT carried: the data may be a selection
+    (of time steps, of ensemble members) of what the grid's dataset holds, in any order."""
+    import warnings
+    import numpy as np
+    import xarray as xr
+    from xgcm import Grid
+    out = []
+    n = 40 if tier == "quick" else 400
+    for _ in range(n):
+        nt, N = rng.randint(3, 6), rng.randint(2, 4)
+        ds = xr.Dataset(coords={"xc": np.arange(N) + 0.5, "xl": np.arange(N) * 1.0, "time": np.arange(nt) * 10.0,
+                                "member": list("abcdef")[:nt]})
+        ds = ds.assign_coords(lon=("xc", np.arange(N) * 2.0), tlab=("time", np.arange(nt) + 100.0))
+        ds["dx"] = ("xc", np.ones(N))
+        ds["dxl"] = ("xl", np.ones(N))
+        g = Grid(ds, coords={"X": {"center": "xc", "left": "xl"}}, periodic=rng.random() < 0.5,
+                 metrics={("X",): ["dx", "dxl"]}, autoparse_metadata=False)
+        dim = rng.choice(["time", "member"])
+        sel = rng.sample(range(nt), rng.randint(1, nt - 1))
+        if rng.random() < 0.5:
+            sel = sorted(sel)
+        full = xr.DataArray(np.arange(nt * N, dtype=float).reshape(nt, N) ** 1.1, dims=[dim, "xc"],
+                            coords={dim: ds[dim], "xc": ds.xc}, name="temp")
+        da = full.isel({dim: sel})
+        func = rng.choice(["diff", "interp", "min", "max", "cumsum", "derivative", "integrate"])
+        keep = rng.random() < 0.5
+        rec = {"dim": dim, "selection": sel, "func": func, "keep_coords": keep, "nt": nt}
+        try:
+            with warnings.catch_warnings():
+                warnings.simplefilter("ignore")
+                kw = {} if func in ("integrate",) else {"keep_coords": keep} if func != "derivative" else {}
+                r = getattr(g, func)(da, "X", **kw)
+            ok = dim in r.coords and np.array_equal(r[dim].values, da[dim].values) and r.sizes[dim] == len(sel)
+            obs = {"coords": sorted(map(str, r.coords)), dim: r[dim].values.tolist() if dim in r.coords else None}
+        except Exception as e:
+            ok, obs = False, {"err": f"{type(e).__name__}: {e}"[:200]}
+        if not ok:
+            out.append((rec, obs, f"{func} of a selection along '{dim}' (a dimension of no axis) does not keep the "
+                                  "selection's own labels"))
+    notes.append(f"{n} operations on selections along a dimension of no axis: the input's labels are kept")
+    return out
